@@ -2,6 +2,7 @@ import Holpy.Common.Sexp
 import Holpy.C16.Model
 import Holpy.C16.SimplexModel
 import Holpy.C16.SimplexBB
+import Holpy.C16.SimplexStep
 import Holpy.C16.StrictModel
 import Holpy.C16.StrictSimplexModel
 /-
@@ -17,6 +18,8 @@ Line protocol for the C16 model (one s-expression in, one out):
                                 INEQS = ((ge|le ((var coeff) ...) bound) ...) with integer entries,
                                 OUTCOME = sat | (unsat xi) | (conflict k) | fuel, ATOMS = ((ge|le var bound) ...),
                                 STATE = ((basic ...) ((var value) ...)) after every check(), value = p/q
+  (norepeat FUEL INEQS)      -> (T|F MAXSTEPS)   monitor of the hypothesis BlandNoRepeat: along every check() of the run
+                                (add_ineqs + handle_assertion) no configuration occurs twice; MAXSTEPS = longest check()
   (bb FUEL BUDGET PICKS INEQS) -> ((found ((var value) ...)) | none | gaveup | fuel | badpick) NODES   model of branch_and_bound;
                                 PICKS = the variables find_not_int_var chose in the real run, in order
   (ssimplex FUEL INEQS)      -> like `simplex` for simplex_strict.Simplex: INEQS = ((ge|le ((var coeff) ...) BX BY) ...),
@@ -105,6 +108,44 @@ def handleDelta (ps : List (Pair × Pair)) : String :=
     match binaryDelta pq.1 pq.2 with
     | some d => ratTo d
     | none => .atom "none"))
+
+namespace NoRepeatMon
+open Holpy.C16.Simplex
+
+def confList (vs : List Var) (s : SState) : List Nat := vs.map fun x => (code s x).val
+
+/-- iterate `step`, collecting the configuration of every state of this `check()` -/
+def runConfs : Nat → SState → List Var → List (List Nat) → List (List Nat) × Option SState
+  | 0, s, vs, acc => (acc ++ [confList vs s], none)
+  | n + 1, s, vs, acc =>
+    match step s with
+    | .sat => (acc ++ [confList vs s], some s)
+    | .unsat _ => (acc ++ [confList vs s], none)
+    | .next s' => runConfs n s' vs (acc ++ [confList vs s])
+
+def monitor (fuel : Nat) : SState → List Atom → Bool → Nat → Bool × Nat
+  | _, [], ok, mx => (ok, mx)
+  | s, a :: rest, ok, mx =>
+    let r := match a with
+      | .leq x c => assertUpper s x c
+      | .geq x c => assertLower s x c
+    match r with
+    | .conflict => (ok, mx)
+    | .ok s1 =>
+      let (confs, s2) := runConfs fuel s1 (allVars s1) []
+      let ok' := ok && (confs.eraseDups.length == confs.length)
+      let mx' := max mx (confs.length - 1)
+      match s2 with
+      | some s2 => monitor fuel s2 rest ok' mx'
+      | none => (ok', mx')
+
+end NoRepeatMon
+
+open Holpy.C16.Simplex in
+def handleNoRepeat (fuel : Nat) (qs : List Ineq) : String :=
+  let (s0, atoms) := addIneqs emptyState qs
+  let (ok, mx) := NoRepeatMon.monitor fuel s0 atoms true 0
+  toString (Sexp.list [Sexp.ofBool ok, Sexp.ofNat mx])
 
 open Holpy.C16.Simplex in
 def handleBB (fuel budget : Nat) (picks : List Nat) (qs : List Ineq) : String :=
@@ -196,6 +237,10 @@ def handle (line : String) : String :=
         | _ => none) with
     | some ps => handleDelta ps
     | none => "bad-op"
+  | some (.list [.atom "norepeat", fuel, qs]) =>
+    match fuel.toNat?, (qs.toList?.bind fun l => l.mapM ineqOf) with
+    | some f, some qs => handleNoRepeat f qs
+    | _, _ => "bad-op"
   | some (.list [.atom "bb", fuel, budget, picks, qs]) =>
     match fuel.toNat?, budget.toNat?, (picks.toList?.bind fun l => l.mapM Sexp.toNat?), (qs.toList?.bind fun l => l.mapM ineqOf) with
     | some f, some b, some ps, some qs => handleBB f b ps qs
